@@ -89,10 +89,16 @@ def relayout(pkg: docgen.Pkg, rng: random.Random, mode: str | None = None) -> do
             continue
         k = kind_of(leaf)
         if k not in styles:
-            styles[k] = rng.choice(["same", "suffix", "prefix", "subdir", "upper"]) if leaf != "styles.xml" else "same"
+            styles[k] = rng.choice(["same", "suffix", "prefix", "subdir", "upper", "dirprefix", "dirprefix_sub"]) \
+                if leaf != "styles.xml" else "same"
         stem = leaf[:-4]
+        last = base.rsplit("/", 1)[-1]
+        # dirprefix: the name (or a sub-directory) STARTS WITH the directory's own name as characters
+        # without being that path component (word/wordmark_header.xml, word/wordart/footer1.xml):
+        # round-6 seed C09-path-startswith-dirname
         leaf = {"same": leaf, "suffix": stem + "_x.xml", "prefix": "p_" + leaf, "subdir": "sub/" + leaf,
-                "upper": stem.upper() + ".xml"}[styles[k]]
+                "upper": stem.upper() + ".xml", "dirprefix": last + "mark_" + leaf,
+                "dirprefix_sub": last + "art/" + leaf}[styles[k]]
         rename[name] = f"{base}/{leaf}"
         if mode == "samedir" and name != "word/document.xml":
             rename[name] = f"word/word/{leaf}"
